@@ -170,6 +170,10 @@ async fn run_scn(rig: &Rig, case: u64, s: &Scn, tags: &HashMap<Vec<u8>, u64>) ->
             Step::Nodes(r, batch) => {
                 let set: HashSet<NodeIdentifier> = batch.iter().map(|n| NodeIdentifier { id: n.node.id, mdate: n.node.mdate, signature: n.node._signature.clone() }).collect();
                 let mut ntis = rig.db.filter_existing_node(set).await.unwrap();
+                // the remote peer chooses the order of the rows of its answer (synchronise_day verifies and inserts
+                // them in that order); filter_existing_node returns them in hash order.  For the large directed
+                // batches the position of a row in the answer matters: the answer follows the batch order
+                if batch.len() >= LARGE_BATCH { ntis.sort_by_key(|nti| batch.iter().position(|n| n.node.id == nti.id).unwrap()); }
                 let mut reply = vec![];
                 for nti in &mut ntis {
                     let it = batch.iter().find(|n| n.node.id == nti.id).unwrap();
@@ -215,6 +219,8 @@ async fn run_scn(rig: &Rig, case: u64, s: &Scn, tags: &HashMap<Vec<u8>, u64>) ->
 
 // ------------------------------------------------------------------ scenarios
 const D0: i64 = BASE - 30 * DAY;
+/// answers of at least this number of rows are replayed in the order of the batch
+const LARGE_BATCH: usize = 64;
 fn good_json(dm: &Dm, ent: Option<u64>, v: &str) -> Option<String> {
     let e = ent.unwrap_or(1);
     Some(format!("{{\"{}\":\"{}\"}}", dm.field(e, "name").short, v))
@@ -441,6 +447,17 @@ fn directed(ctx: &mut Ctx, which: usize) -> Option<Scn> {
                 f("name"), f("di"), f("df"), f("db"), f("dk"), f("dj"))), d + 1, 1, Tamper::No)); id += 1;                                // stored
             b.push(ctx.node(id, Some(1), Some(3), Some(format!("{{\"{}\":null,\"{}\":null,\"{}\":null,\"{}\":null}}", f("f"), f("b"), f("k"), f("j"))), d + 1, 1, Tamper::No)); // stored: nullable
             Scn { defs, pre_nodes: vec![], pre_edges: vec![], steps: vec![Step::Nodes(1, b)], what: "explicit null on defaulted, non nullable fields".into() }
+        }
+        // large answers (64 rows and more) of new rows of one entitled author with exactly ONE forged row, last, first
+        // or in the middle of the answer: the whole answer is dropped whatever the size of the answer and the
+        // position of the forged row (every row of an answer is signature-checked, not only a prefix)
+        14..=21 => {
+            let (n, pos, tamper) = [(64u64, 63u64, Tamper::Sig), (67, 66, Tamper::Sig), (67, 0, Tamper::Field), (67, 65, Tamper::Field),
+                (101, 100, Tamper::Field), (101, 50, Tamper::Sig), (130, 129, Tamper::Sig), (130, 128, Tamper::Field)][which - 14];
+            let defs = vec![(1, simple_room(&[(1, 0, true, false)]))];
+            let b: Vec<NodeIt> = (0..n).map(|i| ctx.node(100 + i, Some(1), Some(2), gj(2, "a"), d + 1, 1, if i == pos { tamper } else { Tamper::No })).collect();
+            assert!(b.iter().filter(|x| !x.sig_ok).count() == 1 && !b[pos as usize].sig_ok);
+            Scn { defs, pre_nodes: vec![], pre_edges: vec![], steps: vec![Step::Nodes(1, b)], what: format!("large answer of {} rows, one forged row at position {}", n, pos) }
         }
         _ => return None,
     })
